@@ -143,3 +143,11 @@ def linger_then_raise(x):
         threading.Thread(target=time.sleep, args=(60,)).start()
         raise ValueError('poison')
     return x * x
+
+
+def return_then_linger(seconds):
+    """returns 42 at once but leaves a non-daemon helper thread behind: the process reports its result and exits only `seconds` later"""
+    import threading
+    import time
+    threading.Thread(target=time.sleep, args=(seconds,)).start()
+    return 42
